@@ -301,4 +301,69 @@ def allDone : List TState → Bool
   | .done _ :: ts => allDone ts
   | _ :: _ => false
 
+/-! ## `Add` under the mutex, statement by statement
+
+`k` callers run the body of `SaltPool.Add` (as a step program, see `AddStep`) one statement at a time, in any
+interleaving; `Lock` blocks while another caller holds `p.mu`; a `return` runs the deferred `Unlock`. `hist` records
+the returns (call, result) in the order they happen.
+-/
+
+structure ACall where
+  now : Nat
+  salt : Salt
+deriving Repr, DecidableEq
+
+structure AThread where
+  call : ACall
+  pc : Nat
+  deferred : Bool
+  result : Option Bool
+deriving Repr, DecidableEq
+
+structure MState where
+  pool : Pool
+  holder : Option Nat
+  threads : List AThread
+  hist : List (ACall × Bool)
+deriving Repr, DecidableEq
+
+def mret (s : MState) (i : Nat) (t : AThread) (b : Bool) : MState :=
+  { pool := s.pool
+    holder := if t.deferred && s.holder == some i then none else s.holder
+    threads := s.threads.set i { t with result := some b }
+    hist := s.hist ++ [(t.call, b)] }
+
+def madv (s : MState) (i : Nat) (t : AThread) : MState :=
+  { s with threads := s.threads.set i { t with pc := t.pc + 1 } }
+
+def microStep (P : Params) (prog : List AddStep) (s : MState) (i : Nat) : MState :=
+  match s.threads[i]? with
+  | none => s
+  | some t =>
+    if t.result.isSome then s else
+    match prog[t.pc]? with
+    | none => s
+    | some .lock => if s.holder.isNone then madv { s with holder := some i } i t else s
+    | some .deferUnlock => madv s i { t with deferred := true }
+    | some .unlock => madv { s with holder := if s.holder == some i then none else s.holder } i t
+    | some .prune => madv { s with pool := pruneExpired t.call.now s.pool } i t
+    | some .lookupReturnFalse => if contains s.pool t.call.salt then mret s i t false else madv s i t
+    | some .insert => madv { s with pool := insert P t.call.now t.call.salt s.pool } i t
+    | some .returnTrue => mret s i t true
+
+def seqAdds (P : Params) (p : Pool) : List ACall → Pool × List Bool
+  | [] => (p, [])
+  | c :: cs =>
+    let r := add P c.now c.salt p
+    let rest := seqAdds P r.1 cs
+    (rest.1, r.2 :: rest.2)
+
+def canonAdd : List AddStep := [.lock, .deferUnlock, .prune, .lookupReturnFalse, .insert, .returnTrue]
+
+def minit (p₀ : Pool) (calls : List ACall) : MState :=
+  { pool := p₀, holder := none, threads := calls.map (fun c => { call := c, pc := 0, deferred := false, result := none }), hist := [] }
+
+def mrun (P : Params) (prog : List AddStep) (s : MState) (sched : List Nat) : MState :=
+  sched.foldl (microStep P prog) s
+
 end SSV.SaltPool
